@@ -15,7 +15,7 @@ from .common import Ctx, Driver, Finding, enc
 from . import gens
 
 RULE = (
-    "newline-terminated documents without tab/CR/NUL from G-doc, wrapped by '> ' (all lines) and by list markers "
+    "newline-terminated documents without tab/CR/NUL from G-doc and the structured nested-container generator, wrapped by '> ' (all lines) and by list markers "
     "'- ', '* ', '+ ', 'N. ', 'N) ' with 1-4 following spaces, repeatedly (random container chains up to depth 6), "
     "commonmark rules; a case is (D, container chain); non-trivial = D has at least two blocks or a nested container; "
     "distinct by case."
@@ -100,7 +100,7 @@ def run(ctx: Ctx) -> None:
     n = 2500 if quick else 60000
     corpus = ["<pre>\na\n\nb\n</pre>\nokay\n"]     # known finding K-C06-1 (always exercised)
     for i in range(-len(corpus), n):
-        D = corpus[i] if i < 0 else (gens.rand_doc(rng, 5) if i % 4 else next(gens.doc_stream(rng, 1, 5)))
+        D = corpus[i] if i < 0 else (gens.struct_doc(rng, 2) if i % 4 == 1 else gens.rand_doc(rng, 5) if i % 4 else next(gens.doc_stream(rng, 1, 5)))
         D = D.replace("\t", " ").replace("\r", "").replace("\x00", "")
         for ch in gens.TRAPS:
             if len(ch) == 1 and ch.isspace():
